@@ -354,12 +354,12 @@ def _(B, X):
     return B.eq(B.dedup(B.dedup(X)), B.dedup(X))
 
 
-@law("dedup-slice-dedup", "T2", "a:Int b:OptInt X:RS", lambda B, a, b, X: B.dedup(B.slice(a, b, B.dedup(X))), status="assumed, bounded-checked (added for the SQL engine; no Lean proof yet)")
+@law("dedup-slice-dedup", "T2", "a:Int b:OptInt X:RS", lambda B, a, b, X: B.dedup(B.slice(a, b, B.dedup(X))))
 def _(B, a, b, X):
     return B.implies(wf(B, a, b), B.eq(B.dedup(B.slice(a, b, B.dedup(X))), B.slice(a, b, B.dedup(X))))
 
 
-@law("proj-chain", "T1", "P:TagSet X:RS Y:RS", lambda B, P, X, Y: [B.proj(P, B.chain(X, Y)), B.chain(B.proj(P, X), B.proj(P, Y))], status="assumed, bounded-checked (added for the SQL engine; no Lean proof yet)")
+@law("proj-chain", "T1", "P:TagSet X:RS Y:RS", lambda B, P, X, Y: [B.proj(P, B.chain(X, Y)), B.chain(B.proj(P, X), B.proj(P, Y))])
 def _(B, P, X, Y):
     return B.implies(B.eq(B.rcols(X), B.rcols(Y)), B.eq(B.proj(P, B.chain(X, Y)), B.chain(B.proj(P, X), B.proj(P, Y))))
 
@@ -438,8 +438,7 @@ def _join_laws():
         # the same without the blanket no-shadow hypothesis: only columns *hidden* by the projection matter, and only
         # when the projected operand is on the right (the right operand's values win in the merged row)
         @law(f"join-proj-{side}-hidden", "T2", "p:Pred K:TagSet P:TagSet X:RS F:RS",
-             lambda B, p, K, P, X, F, J=J: [B.proj(B.union(P, B.rcols(F)), J(B, p, K, X, F)), J(B, p, K, B.proj(P, X), F)],
-             status="assumed, bounded-checked (added for the SQL engine; no Lean proof yet)")
+             lambda B, p, K, P, X, F, J=J: [B.proj(B.union(P, B.rcols(F)), J(B, p, K, X, F)), J(B, p, K, B.proj(P, X), F)])
         def _(B, p, K, P, X, F, J=J, side=side):
             hyp = B.and_(B.subset(P, B.rcols(X)), B.subset(K, P), B.subset(K, B.rcols(F)), B.subset(B.fv(p), B.union(P, B.rcols(F))))
             if side == "l":  # X is the right operand
